@@ -38,10 +38,10 @@ RULE = (
     "unchanged.  distinct = sha1(history); non-trivial = an evaluation selected a non-default implementation that was "
     "registered after an earlier evaluation."
 )
-ASSUMPTIONS = ["an alias is registered at most once per dataset in a history (re-registration order is not part of the statement)"]
+ASSUMPTIONS = ["an alias registered again replaces the earlier registration for evaluations that are not already stored"]
 FLOORS = {"histories": (1500, 12000), "uncached_evaluations_exact": (4000, 35000), "cached_evaluations_checked": (4000, 35000),
           "selected_registered_impl": (1000, 10000), "late_registrations_effective": (800, 6000), "interface_member_evaluations": (15000, 50000),
-          "rejected_implementations": (2000, 3000)}
+          "rejected_implementations": (2000, 3000), "reregistrations": (400, 3000)}
 SHARDS_QUICK = 4
 ALIASES = ["x", "y", "z", 0, 1, None, "a", {"tuple": ["ds1", "default"]}, {"tuple": ["t", 1]}]
 
@@ -76,6 +76,7 @@ def gen_history(r):
         datasets[did] = d
     g.program["datasets"] = datasets
     ops = []
+    reregistered = [0]
     used = {did: set() for did in datasets}
     pending = {did: d.pop("late_dispatch") for did, d in datasets.items() if "late_dispatch" in d}
     for did, key in pending.items():
@@ -95,6 +96,12 @@ def gen_history(r):
                 continue
             form = r.choice(["expr", "func", "func", "list", "stacked", "ds"])
             a = r.choice(free)
+            taken = [x for x in ALIASES if repr(x) in used[did]]
+            if taken and form in ("expr", "func", "ds") and r.random() < 0.25:
+                # registering an alias again is a registration like any other: it applies to every later
+                # evaluation that is not already stored
+                a = r.choice(taken)
+                reregistered[0] += 1
             if form == "list" and len(free) >= 2:
                 alias = r.sample(free, 2)
             elif form == "stacked" and len(free) >= 2:
@@ -118,7 +125,7 @@ def gen_history(r):
             if r.random() < 0.5:
                 o["E"] = r.choice(ALIASES[:7])
             ops.append(["eval", did, o, r.random() < 0.5, r.random() < 0.15])
-    return {"datasets": datasets, "ops": ops}
+    return {"datasets": datasets, "ops": ops, "reregistrations": reregistered[0]}
 
 
 def dispatch_values(o):
@@ -131,6 +138,7 @@ def run_history(ctx, H, tag):
     for did in program["datasets"]:
         G.dataset(did)
     ctx.count("histories")
+    ctx.count("reregistrations", H.get("reregistrations", 0))
     seen_values = {}  # (did, dispatch values, derived?) -> set of canon values returned with caching on
     evaluated_before = False
     late = False
